@@ -94,8 +94,10 @@ void checkPrt(Ctx& ctx, const ref::RPrt& r, const std::string& key, bool canonic
 	ctx.transition();
 	if (w2 != w1) { bad("write-not-byte-stable", ""); return; }
 	{
-		std::string dir = ctx.scratch(), in = dir + "/in.prt", out = dir + "/out.prt";
+		// the game's own spelling of the file name; a differently cased twin sits next to it and must not be touched or read
+		std::string dir = ctx.scratch(), in = dir + "/OP2_ART.PRT", out = dir + "/Out.Prt";
 		mc::writeFile(in, bytes);
+		mc::writeFile(dir + "/OP2_ART.prt", "decoy", 5); mc::writeFile(dir + "/op2_art.prt", "decoy", 5); mc::writeFile(dir + "/out.prt", "decoy", 5); mc::writeFile(dir + "/Out.prt", "decoy", 5);
 		ArtFile af; std::vector<uint8_t> wf;
 		auto o3 = mc::guarded([&] { af = ArtFile::Read(in); af.Write(out); wf = mc::readFile(out); });
 		ctx.transition(2);
@@ -188,6 +190,38 @@ void failingWrites(Ctx& ctx)
 	ctx.state(); ctx.trace();
 }
 
+// every image type (no bit, each single bit, all bits) x widths 0..70 x scan line widths 0..72 in steps of 4: reader and writer
+// accept exactly the width rounded up to four, whatever the type says
+void scanLineGrid(Ctx& ctx)
+{
+	std::vector<int> cfg(prtc::kDims, 0);
+	ref::RPrt base = prtc::makePrt(cfg);
+	if (base.images.empty()) { ctx.violation("harness/prt-scan-line-grid", "", "no image in the base file"); return; }
+	std::vector<uint16_t> types = { 0, 0xFFFF }; for (int k = 0; k < 16; ++k) types.push_back(uint16_t(1u << k));
+	for (uint16_t t : types) for (uint32_t w = 0; w <= 70; ++w) for (uint32_t sl = 0; sl <= 72; sl += 4) {
+		ref::RPrt r = base; r.images[0].width = w; r.images[0].scanLine = sl; r.images[0].type = t;
+		bool valid = uint64_t(sl) == ref::roundUp4(w);
+		std::string key = "image type " + mc::hex(reinterpret_cast<const uint8_t*>(&t), 2) + " width " + std::to_string(w) + " scan line " + std::to_string(sl);
+		if ((w + sl) % 16 == 0) ctx.sub(key);
+		ArtFile a;
+		auto o = mc::guarded([&] { a = prtc::readArt(ref::encodePrt(r)); });
+		ctx.transition();
+		if (valid != (o.cls == 'R')) { ctx.violation(valid ? "C10/scan-line-grid/valid-file-rejected" : "C10/scan-line-grid/reader-accepted-scan-line-not-rounded-width", key, o.what); return; }
+		if (valid) { ctx.count("scan-line-grid/valid"); continue; }
+		// writer: the valid neighbour with the scan line changed on the object
+		ref::RPrt ok = r; ok.images[0].scanLine = uint32_t(ref::roundUp4(w));
+		ArtFile b;
+		auto ob = mc::guarded([&] { b = prtc::readArt(ref::encodePrt(ok)); });
+		if (ob.cls != 'R') { ctx.violation("C10/scan-line-grid/valid-file-rejected", key, ob.what); return; }
+		b.imageMetas[0].scanLineByteWidth = sl;
+		auto ow = mc::guarded([&] { prtc::writeArt(b); });
+		ctx.transition();
+		if (ow.cls == 'R') { ctx.violation("C10/scan-line-grid/writer-accepted-scan-line-not-rounded-width", key, ""); return; }
+		ctx.count("scan-line-grid/refused");
+	}
+	ctx.state(); ctx.trace();
+}
+
 // single-field corruptions: rejected, or a result that satisfies the rules
 void corruptions(Ctx& ctx, int seedIdx)
 {
@@ -255,6 +289,7 @@ void runCase(std::size_t i, Ctx& ctx)
 	else if (k == 5) failingWrites(ctx);
 	else if (k == 6) corruptions(ctx, 4);
 	else if (k == 7) largePrt(ctx);
+	else if (k == 8) scanLineGrid(ctx);
 	else corruptions(ctx, int(k - 1));
 }
 
@@ -265,7 +300,7 @@ int main(int argc, char** argv)
 	mc::CheckDef def;
 	def.id = "C10";
 	def.init = enumerate;
-	def.ncases = [](Ctx&) { return nChunks() + 8; };
+	def.ncases = [](Ctx&) { return nChunks() + 9; };
 	def.run = runCase;
 	def.caseTimeoutS = 300;
 	return mc::Main(argc, argv, def);
